@@ -288,3 +288,619 @@ Proof.
   - repeat (apply Forall_cons; [first [apply cbor_of_eid_depth | cbn [depth fold_right]; lia]|]). apply Forall_nil.
   - apply Forall_app. split; [apply frag_items_depth|apply crc_items_depth].
 Qed.
+
+(** * Canonical blocks *)
+
+Lemma cblock_roundtrip b : wf_cblock b -> cblock_of_cbor (CArr (cblock_items b)) = Some b.
+Proof.
+  destruct b as [t n f ct d c]. unfold wf_cblock.
+  cbn [btype bnum bflags bcrc_type btsd bcrc].
+  intros (_ & _ & _ & Hct & _ & _ & Hc).
+  cbn [cblock_of_cbor]. unfold cblock_of_items, cblock_items.
+  cbn [btype bnum bflags bcrc_type btsd bcrc app pop_uint pop_bstr].
+  unfold crc_type_ok. destruct (N.ltb_spec ct 3) as [_|]; [|lia].
+  rewrite end_crc_ok; [reflexivity|]. destruct c; [apply Hc|exact Hc].
+Qed.
+
+Lemma cblock_of_items_inv l b : cblock_of_items l = Some b -> cblock_items b = l.
+Proof.
+  unfold cblock_of_items.
+  destruct (pop_uint l) as [[t l1]|] eqn:E1; [|discriminate]. apply pop_uint_inv in E1.
+  destruct (pop_uint l1) as [[n l2]|] eqn:E2; [|discriminate]. apply pop_uint_inv in E2.
+  destruct (pop_uint l2) as [[f l3]|] eqn:E3; [|discriminate]. apply pop_uint_inv in E3.
+  destruct (pop_uint l3) as [[ct l4]|] eqn:E4; [|discriminate]. apply pop_uint_inv in E4.
+  destruct (pop_bstr l4) as [[d l5]|] eqn:E5; [|discriminate]. apply pop_bstr_inv in E5.
+  destruct (crc_type_ok ct); [|discriminate].
+  destruct (end_crc ct l5) as [c|] eqn:E6; [|discriminate]. apply end_crc_inv in E6 as [E6 _].
+  intros H. injection H as <-. subst. reflexivity.
+Qed.
+
+Lemma cblock_of_cbor_inv c b : cblock_of_cbor c = Some b -> CArr (cblock_items b) = c.
+Proof.
+  destruct c; try discriminate. cbn [cblock_of_cbor]. intros H. apply cblock_of_items_inv in H. rewrite H. reflexivity.
+Qed.
+
+Lemma cblock_items_length b :
+  length (cblock_items b) = (5 + match bcrc b with Some _ => 1 | None => 0 end)%nat.
+Proof. unfold cblock_items. rewrite app_length, crc_items_length. cbn [length]. lia. Qed.
+
+Lemma cblock_items_length_bounds b : (5 <= length (cblock_items b) <= 6)%nat.
+Proof. rewrite cblock_items_length. destruct (bcrc b); lia. Qed.
+
+Lemma cblock_items_length_wf b :
+  wf_cblock b -> length (cblock_items b) = (5 + (if N.eqb (bcrc_type b) 0%N then 0 else 1))%nat.
+Proof.
+  intros (_ & _ & _ & _ & _ & _ & Hc). rewrite cblock_items_length. destruct (bcrc b).
+  - destruct Hc as [Hc _]. destruct (N.eqb_spec (bcrc_type b) 0); [contradiction|reflexivity].
+  - rewrite Hc. reflexivity.
+Qed.
+
+Lemma cblock_items_wf b : wf_cblock b -> Cbor.wf (CArr (cblock_items b)).
+Proof.
+  intros (Ht & Hn & Hf & Hct & Hdl & Hd & Hc). apply wf_CArr. split.
+  - pose proof (cblock_items_length_bounds b). lia.
+  - unfold cblock_items. apply Forall_app. split.
+    + repeat (apply Forall_cons; [cbn [Cbor.wf]; first [lia | split; assumption]|]). apply Forall_nil.
+    + apply crc_items_wf. destruct (bcrc b); cbn [opt_bytes_ok]; [tauto|exact I].
+Qed.
+
+Lemma cblock_items_depth b : (depth (CArr (cblock_items b)) <= 4)%nat.
+Proof.
+  apply depth_list_le. unfold cblock_items. apply Forall_app. split.
+  - repeat (apply Forall_cons; [cbn [depth]; lia|]). apply Forall_nil.
+  - apply crc_items_depth.
+Qed.
+
+Lemma wf_cblockb_spec b : wf_cblockb b = true <-> wf_cblock b.
+Proof.
+  unfold wf_cblockb, wf_cblock. rewrite !andb_true_iff, !N.ltb_lt, wf_bytesb_spec.
+  destruct (bcrc b) as [v|].
+  - rewrite !andb_true_iff, negb_true_iff, N.ltb_lt, wf_bytesb_spec, N.eqb_neq. tauto.
+  - rewrite N.eqb_eq. tauto.
+Qed.
+
+Lemma wf_primaryb_spec p : wf_primaryb p = true <-> wf_primary p.
+Proof.
+  unfold wf_primaryb, wf_primary. rewrite !andb_true_iff, !N.ltb_lt, !wf_eidb_spec.
+  assert (Hfr : (match frag p with
+                 | Some (o, t) => is_fragment p && (o <? two64) && (t <? two64)
+                 | None => negb (is_fragment p) end) = true <->
+                match frag p with
+                | Some (o, t) => is_fragment p = true /\ o < two64 /\ t < two64
+                | None => is_fragment p = false end).
+  { destruct (frag p) as [[o t]|].
+    - rewrite !andb_true_iff, !N.ltb_lt. tauto.
+    - rewrite negb_true_iff. tauto. }
+  assert (Hc : (match crc p with
+                | Some v => negb (crc_type p =? 0) && (N.of_nat (length v) <? two64) && wf_bytesb v
+                | None => crc_type p =? 0 end) = true <->
+               match crc p with
+               | Some v => crc_type p <> 0 /\ N.of_nat (length v) < two64 /\ wf_bytes v
+               | None => crc_type p = 0 end).
+  { destruct (crc p) as [v|].
+    - rewrite !andb_true_iff, negb_true_iff, N.ltb_lt, wf_bytesb_spec, N.eqb_neq. tauto.
+    - rewrite N.eqb_eq. tauto. }
+  rewrite Hfr, Hc. tauto.
+Qed.
+
+(** * Bundles: tree level *)
+
+Lemma cblocks_of_map bl :
+  Forall wf_cblock bl -> cblocks_of (map (fun blk => CArr (cblock_items blk)) bl) = Some bl.
+Proof.
+  induction 1 as [|b bl Hb _ IH]; cbn [map cblocks_of]; [reflexivity|].
+  rewrite cblock_roundtrip by exact Hb. rewrite IH. reflexivity.
+Qed.
+
+Lemma cblocks_of_inv : forall l bl, cblocks_of l = Some bl -> map (fun blk => CArr (cblock_items blk)) bl = l.
+Proof.
+  induction l as [|c l IH]; intros bl H; cbn [cblocks_of] in H.
+  - injection H as <-. reflexivity.
+  - destruct (cblock_of_cbor c) as [b|] eqn:E; [|discriminate].
+    destruct (cblocks_of l) as [r|] eqn:E2; [|discriminate]. injection H as <-.
+    cbn [map]. rewrite (cblock_of_cbor_inv _ _ E), (IH r eq_refl). reflexivity.
+Qed.
+
+Theorem bundle_tree_roundtrip b :
+  wf_primary (prim b) -> Forall wf_cblock (blocks b) -> bundle_of_items (bundle_items b) = Some b.
+Proof.
+  intros Hp Hb. unfold bundle_of_items, bundle_items.
+  rewrite primary_roundtrip by exact Hp. rewrite cblocks_of_map by exact Hb. destruct b; reflexivity.
+Qed.
+
+Theorem bundle_tree_reencode l b : bundle_of_items l = Some b -> bundle_items b = l.
+Proof.
+  unfold bundle_of_items. destruct l as [|c rest]; [discriminate|].
+  destruct c as [| | | |pl| | |]; try discriminate.
+  destruct (primary_of_items pl) as [p|] eqn:E1; [|discriminate].
+  destruct (cblocks_of rest) as [bl|] eqn:E2; [|discriminate].
+  intros H. injection H as <-. unfold bundle_items. cbn [prim blocks].
+  rewrite (primary_of_items_inv _ _ E1), (cblocks_of_inv _ _ E2). reflexivity.
+Qed.
+
+Lemma bundle_items_wf b :
+  wf_primary (prim b) -> Forall wf_cblock (blocks b) -> Forall Cbor.wf (bundle_items b).
+Proof.
+  intros Hp Hb. unfold bundle_items. constructor; [apply primary_items_wf, Hp|].
+  rewrite Forall_map. eapply Forall_impl; [|exact Hb]. intros blk. apply cblock_items_wf.
+Qed.
+
+Lemma bundle_items_depth b : (depth (CArr (bundle_items b)) <= 5)%nat.
+Proof.
+  apply depth_list_le. unfold bundle_items. constructor; [apply primary_items_depth|].
+  rewrite Forall_map. apply Forall_forall. intros blk _. apply cblock_items_depth.
+Qed.
+
+Lemma payload_lastb_spec l : payload_lastb l = true <-> payload_last l.
+Proof.
+  unfold payload_lastb, payload_last. split.
+  - destruct (rev l) as [|pl r] eqn:E; [discriminate|]. intros H. apply N.eqb_eq in H.
+    exists (rev r), pl. split; [|exact H].
+    rewrite <- (rev_involutive l), E. reflexivity.
+  - intros (pre & pl & -> & H). rewrite rev_app_distr. cbn [rev app]. apply N.eqb_eq, H.
+Qed.
+
+Lemma wf_bundleb_spec b : wf_bundleb b = true <-> wf_bundle b.
+Proof.
+  unfold wf_bundleb, wf_bundle. rewrite !andb_true_iff, wf_primaryb_spec, payload_lastb_spec.
+  rewrite forallb_forall, Forall_forall.
+  split.
+  - intros [[Hp Hb] Hl]. split; [exact Hp|]. split; [|exact Hl]. intros x Hx. apply wf_cblockb_spec, Hb, Hx.
+  - intros (Hp & Hb & Hl). split; [split|]; [exact Hp| |exact Hl]. intros x Hx. apply wf_cblockb_spec, Hb, Hx.
+Qed.
+
+(** * Bundles: octet level *)
+
+Lemma decode_encode_bundle b :
+  wf_primary (prim b) -> Forall wf_cblock (blocks b) ->
+  decode bundle_fuel (encode_bundle b) = Some (CArr (bundle_items b), []).
+Proof.
+  intros Hp Hb. unfold encode_bundle. rewrite <- (app_nil_r (encode_indef_arr _)).
+  apply decode_indef_depth; [apply bundle_items_wf; assumption|].
+  pose proof (bundle_items_depth b). unfold bundle_fuel. lia.
+Qed.
+
+(** the clean codec: no implementation guard needed *)
+Theorem bundle_roundtrip_clean b :
+  wf_bundle b -> impl_admin_ok b = true -> decode_bundle (encode_bundle b) = Some b.
+Proof.
+  intros (Hp & Hb & _) Ha. unfold decode_bundle. rewrite decode_encode_bundle by assumption.
+  cbn [bundle_of_cbor]. rewrite bundle_tree_roundtrip by assumption. rewrite Ha. reflexivity.
+Qed.
+
+Lemma impl_encode_guard b : impl_norm_bundle b = b -> impl_encode_bundle b = encode_bundle b.
+Proof. intros H. unfold impl_encode_bundle. rewrite H. reflexivity. Qed.
+
+Theorem bundle_roundtrip b :
+  wf_bundle b -> impl_norm_bundle b = b -> impl_admin_ok b = true ->
+  decode_bundle (impl_encode_bundle b) = Some b.
+Proof. intros Hwf Hn Ha. rewrite impl_encode_guard by exact Hn. apply bundle_roundtrip_clean; assumption. Qed.
+
+(** decoding canonical octets and re-encoding with the clean encoder *)
+Theorem bundle_reencode_clean bs b :
+  decode_bundle bs = Some b -> rfc9171_canonical bs -> encode_bundle b = bs.
+Proof.
+  unfold decode_bundle. intros H (items & Hwf & ->).
+  destruct (decode bundle_fuel (encode_indef_arr items)) as [[c rest]|] eqn:E; [|discriminate].
+  (* with enough fuel the generic decoder returns exactly [items] *)
+  assert (Hbig : exists f, decode f (encode_indef_arr items ++ []) = Some (CArr items, [])).
+  { exists (depth (CArr items)). apply decode_indef_depth; [exact Hwf|lia]. }
+  destruct Hbig as [f Hf]. rewrite app_nil_r in Hf.
+  pose proof (decode_fuel_indep _ _ _ _ _ E Hf) as Heq. injection Heq as -> ->.
+  cbn [bundle_of_cbor] in H.
+  destruct (bundle_of_items items) as [b'|] eqn:E2; [|discriminate].
+  destruct (impl_admin_ok b'); [|discriminate]. injection H as ->.
+  unfold encode_bundle. rewrite (bundle_tree_reencode _ _ E2). reflexivity.
+Qed.
+
+Theorem bundle_reencode bs b :
+  decode_bundle bs = Some b -> rfc9171_canonical bs -> impl_norm_bundle b = b -> impl_encode_bundle b = bs.
+Proof. intros H Hc Hn. rewrite impl_encode_guard by exact Hn. apply bundle_reencode_clean; assumption. Qed.
+
+(** every clean encoding is canonical in the above sense *)
+Lemma encode_bundle_canonical b :
+  wf_primary (prim b) -> Forall wf_cblock (blocks b) -> rfc9171_canonical (encode_bundle b).
+Proof. intros Hp Hb. exists (bundle_items b). split; [apply bundle_items_wf; assumption|reflexivity]. Qed.
+
+(** * Shape *)
+
+Theorem bundle_shape_clean b : wf_bundle b -> rfc9171_shape (encode_bundle b).
+Proof.
+  intros (Hp & Hb & (pre & pl & Hpre & Hpl)).
+  exists (primary_items (prim b)), (map (fun blk => CArr (cblock_items blk)) (blocks b)),
+         (map (fun blk => CArr (cblock_items blk)) pre), (cblock_items pl).
+  split; [reflexivity|]. split; [apply decode_encode_bundle; assumption|].
+  split; [apply primary_items_length_bounds|]. split.
+  - rewrite Forall_map. apply Forall_forall. intros blk _. exists (cblock_items blk).
+    split; [reflexivity|apply cblock_items_length_bounds].
+  - split.
+    + rewrite Hpre, map_app. reflexivity.
+    + unfold cblock_items. cbn [app hd_error]. rewrite Hpl. reflexivity.
+Qed.
+
+Theorem bundle_shape b : wf_bundle (impl_norm_bundle b) -> rfc9171_shape (impl_encode_bundle b).
+Proof. apply bundle_shape_clean. Qed.
+
+(** * Status reports and administrative records *)
+
+Lemma bool_roundtrip b : bool_of_cbor (cbor_of_bool b) = Some b.
+Proof. destruct b; reflexivity. Qed.
+
+Lemma status_item_roundtrip s : status_item_of_cbor (cbor_of_status_item s) = Some s.
+Proof.
+  destruct s as [b [t|]]; unfold cbor_of_status_item, status_item_of_cbor; cbn [fst snd];
+    rewrite bool_roundtrip; reflexivity.
+Qed.
+
+Lemma status_item_wf s : wf_status_item s -> Cbor.wf (cbor_of_status_item s).
+Proof.
+  destruct s as [b [t|]]; unfold wf_status_item, cbor_of_status_item; cbn [fst snd]; intros H;
+    apply wf_CArr; (split; [cbn; lia|]); repeat constructor; destruct b; cbn; lia.
+Qed.
+
+Lemma status_item_depth s : (depth (cbor_of_status_item s) <= 2)%nat.
+Proof. destruct s as [b [t|]]; unfold cbor_of_status_item; cbn [fst snd depth fold_right]; destruct b; cbn [cbor_of_bool depth]; lia. Qed.
+
+Lemma opt_uint_items_wf o : match o with Some n => n < two64 | None => True end -> Forall Cbor.wf (opt_uint_items o).
+Proof. destruct o; cbn [opt_uint_items]; intros H; repeat constructor; exact H. Qed.
+
+Lemma opt_uint_items_depth o : Forall (fun v => (depth v <= 3)%nat) (opt_uint_items o).
+Proof. destruct o; cbn [opt_uint_items]; repeat constructor; cbn [depth]; lia. Qed.
+
+Lemma end_opts_ok fo pl :
+  (fo = None -> pl = None) -> end_opts (opt_uint_items fo ++ opt_uint_items pl) = Some (fo, pl).
+Proof.
+  destruct fo as [o|], pl as [n|]; cbn; intros H; try reflexivity. specialize (H eq_refl). discriminate.
+Qed.
+
+Theorem status_report_tree_roundtrip reason_ok r :
+  wf_status_report r -> reason_ok (sr_reason r) = true ->
+  status_report_of_items reason_ok (status_report_items r) = Some r.
+Proof.
+  destruct r as [a b c d rc e t q fo pl]. unfold wf_status_report.
+  cbn [sr_received sr_forwarded sr_delivered sr_deleted sr_reason sr_src sr_time sr_seq sr_frag_off sr_pay_len].
+  intros (_ & _ & _ & _ & _ & He & _ & _ & Hfo & _) Hr.
+  unfold status_report_of_items, status_report_items.
+  cbn [sr_received sr_forwarded sr_delivered sr_deleted sr_reason sr_src sr_time sr_seq sr_frag_off sr_pay_len app pop_status].
+  rewrite !status_item_roundtrip. cbn [pop_uint]. rewrite (pop_eid_ok e) by exact He. cbn [pop_ts].
+  rewrite end_opts_ok.
+  - rewrite Hr. reflexivity.
+  - intros ->. exact Hfo.
+Qed.
+
+Lemma status_report_items_wf r : wf_status_report r -> Cbor.wf (CArr (status_report_items r)).
+Proof.
+  intros (Ha & Hb & Hc & Hd & Hrc & He & Ht & Hq & Hfo & Hpl). apply wf_CArr. split.
+  - unfold status_report_items. rewrite !app_length. cbn [length].
+    destruct (sr_frag_off r), (sr_pay_len r); cbn [opt_uint_items length]; lia.
+  - unfold status_report_items. apply Forall_app. split.
+    + apply Forall_cons.
+      { apply wf_CArr. split; [cbn; lia|]. repeat (apply Forall_cons; [apply status_item_wf; assumption|]). apply Forall_nil. }
+      apply Forall_cons; [cbn; lia|]. apply Forall_cons; [apply cbor_of_eid_wf, He|].
+      apply Forall_cons; [|apply Forall_nil]. apply wf_CArr. split; [cbn; lia|]. repeat constructor; cbn; lia.
+    + apply Forall_app. split; apply opt_uint_items_wf.
+      * destruct (sr_frag_off r); [exact Hfo|exact I].
+      * exact Hpl.
+Qed.
+
+Lemma status_report_items_depth r : (depth (CArr (status_report_items r)) <= 4)%nat.
+Proof.
+  apply depth_list_le. unfold status_report_items. apply Forall_app. split.
+  - apply Forall_cons.
+    { apply depth_list_le. repeat (apply Forall_cons; [apply status_item_depth|]). apply Forall_nil. }
+    apply Forall_cons; [cbn [depth]; lia|]. apply Forall_cons; [apply cbor_of_eid_depth|].
+    apply Forall_cons; [cbn [depth fold_right]; lia|apply Forall_nil].
+  - apply Forall_app. split; apply opt_uint_items_depth.
+Qed.
+
+Definition wf_admin (a : admin_record) : Prop :=
+  match a with
+  | AdminStatus r => wf_status_report r
+  | AdminOther t c => t < two64 /\ t <> 1 /\ Cbor.wf c /\ (depth c <= 6)%nat
+  end.
+
+Lemma cbor_of_admin_wf a : wf_admin a -> Cbor.wf (cbor_of_admin a) /\ (depth (cbor_of_admin a) <= bundle_fuel)%nat.
+Proof.
+  destruct a as [r|t c]; cbn [wf_admin cbor_of_admin].
+  - intros H. split.
+    + apply wf_CArr. split; [cbn; lia|]. apply Forall_cons; [cbn; lia|].
+      apply Forall_cons; [apply status_report_items_wf, H|apply Forall_nil].
+    + pose proof (status_report_items_depth r). cbn [depth fold_right] in *. unfold bundle_fuel. lia.
+  - intros (Ht & _ & Hc & Hd). split.
+    + apply wf_CArr. split; [cbn; lia|]. repeat (apply Forall_cons; [first [exact Hc | cbn; lia]|]). apply Forall_nil.
+    + cbn [depth fold_right]. unfold bundle_fuel. lia.
+Qed.
+
+Lemma decode_one_strict_encode c :
+  Cbor.wf c -> (depth c <= bundle_fuel)%nat -> decode_one_strict (encode c) = Some c.
+Proof.
+  intros Hwf Hd. unfold decode_one_strict. rewrite <- (app_nil_r (encode c)).
+  rewrite decode_strict_encode by assumption. reflexivity.
+Qed.
+
+Lemma decode_one_strict_inv bs c : decode_one_strict bs = Some c -> encode c = bs.
+Proof.
+  unfold decode_one_strict. destruct (decode_strict bundle_fuel bs) as [[c' rest]|] eqn:E; [|discriminate].
+  destruct rest; [|discriminate]. intros H. injection H as ->.
+  apply decode_canonical_reencode in E. rewrite app_nil_r in E. symmetry. exact E.
+Qed.
+
+Theorem admin_record_roundtrip reason_ok a :
+  wf_admin a ->
+  match a with AdminStatus r => reason_ok (sr_reason r) = true | _ => True end ->
+  decode_admin_record_gen reason_ok (encode_admin_record a) = Some a.
+Proof.
+  intros Hwf Hr. destruct (cbor_of_admin_wf a Hwf) as [Hc Hd].
+  unfold decode_admin_record_gen, encode_admin_record. rewrite decode_one_strict_encode by assumption.
+  destruct a as [r|t c]; cbn [cbor_of_admin admin_of_cbor].
+  - rewrite N.eqb_refl. rewrite status_report_tree_roundtrip by assumption. reflexivity.
+  - destruct Hwf as (_ & Hne & _). destruct (N.eqb_spec t 1); [contradiction|reflexivity].
+Qed.
+
+Theorem status_report_roundtrip r :
+  wf_status_report r -> impl_reason_known (sr_reason r) = true ->
+  decode_status_report (encode_status_report r) = Some r.
+Proof.
+  intros Hwf Hr. unfold decode_status_report, encode_status_report, decode_admin_record.
+  rewrite (admin_record_roundtrip impl_reason_known (AdminStatus r)) by assumption. reflexivity.
+Qed.
+
+Theorem status_report_roundtrip_rfc r :
+  wf_status_report r -> rfc_decode_status_report (encode_status_report r) = Some r.
+Proof.
+  intros Hwf. unfold rfc_decode_status_report, encode_status_report, rfc_decode_admin_record.
+  rewrite (admin_record_roundtrip rfc_reason_any (AdminStatus r)) by (try assumption; reflexivity). reflexivity.
+Qed.
+
+(** strict decoding of an administrative record is inverted by the encoder *)
+Lemma pop_status_inv l a b c d t :
+  pop_status l = Some (a, b, c, d, t) ->
+  exists ca cb cc cd, l = CArr [ca; cb; cc; cd] :: t /\
+    status_item_of_cbor ca = Some a /\ status_item_of_cbor cb = Some b /\
+    status_item_of_cbor cc = Some c /\ status_item_of_cbor cd = Some d.
+Proof.
+  destruct l as [|x l]; [discriminate|]. destruct x as [| | | |l0| | |]; try discriminate.
+  destruct l0 as [|ca l0]; [discriminate|]. destruct l0 as [|cb l0]; [discriminate|].
+  destruct l0 as [|cc l0]; [discriminate|]. destruct l0 as [|cd l0]; [discriminate|]. destruct l0; [|discriminate].
+  cbn [pop_status].
+  destruct (status_item_of_cbor ca) as [a'|] eqn:Ea; [|discriminate].
+  destruct (status_item_of_cbor cb) as [b'|] eqn:Eb; [|discriminate].
+  destruct (status_item_of_cbor cc) as [c'|] eqn:Ec; [|discriminate].
+  destruct (status_item_of_cbor cd) as [d'|] eqn:Ed; [|discriminate].
+  intros H. injection H as <- <- <- <- <-. exists ca, cb, cc, cd. repeat split; assumption.
+Qed.
+
+Lemma bool_of_cbor_inv c b : bool_of_cbor c = Some b -> cbor_of_bool b = c.
+Proof.
+  destruct c; try discriminate. cbn [bool_of_cbor].
+  destruct (N.eqb_spec n 21) as [->|]; [intros H; injection H as <-; reflexivity|].
+  destruct (N.eqb_spec n 20) as [->|]; [intros H; injection H as <-; reflexivity|discriminate].
+Qed.
+
+Lemma status_item_of_cbor_inv c s : status_item_of_cbor c = Some s -> cbor_of_status_item s = c.
+Proof.
+  destruct c as [| | | |l| | |]; try discriminate.
+  destruct l as [|f l]; [discriminate|]. destruct l as [|x l].
+  - cbn [status_item_of_cbor]. destruct (bool_of_cbor f) as [b|] eqn:E; [|discriminate].
+    intros H. injection H as <-. apply bool_of_cbor_inv in E. unfold cbor_of_status_item. cbn [fst snd]. rewrite E. reflexivity.
+  - destruct x; try discriminate. destruct l; [|discriminate]. cbn [status_item_of_cbor].
+    destruct (bool_of_cbor f) as [b|] eqn:E; [|discriminate].
+    intros H. injection H as <-. apply bool_of_cbor_inv in E. unfold cbor_of_status_item. cbn [fst snd]. rewrite E. reflexivity.
+Qed.
+
+Lemma end_opts_inv l fo pl : end_opts l = Some (fo, pl) -> l = opt_uint_items fo ++ opt_uint_items pl.
+Proof.
+  destruct l as [|x l]; [intros H; injection H as <- <-; reflexivity|].
+  destruct x; try discriminate. destruct l as [|y l]; [intros H; injection H as <- <-; reflexivity|].
+  destruct y; try discriminate. destruct l; [|discriminate]. intros H; injection H as <- <-; reflexivity.
+Qed.
+
+Lemma status_report_of_items_inv reason_ok l r :
+  status_report_of_items reason_ok l = Some r -> status_report_items r = l.
+Proof.
+  unfold status_report_of_items.
+  destruct (pop_status l) as [[[[[a b] c] d] l1]|] eqn:E1; [|discriminate].
+  apply pop_status_inv in E1 as (ca & cb & cc & cd & -> & Ha & Hb & Hc & Hd).
+  destruct (pop_uint l1) as [[rc l2]|] eqn:E2; [|discriminate]. apply pop_uint_inv in E2.
+  destruct (pop_eid l2) as [[e l3]|] eqn:E3; [|discriminate]. apply pop_eid_inv in E3.
+  destruct (pop_ts l3) as [[[t q] l4]|] eqn:E4; [|discriminate]. apply pop_ts_inv in E4.
+  destruct (end_opts l4) as [[fo pl]|] eqn:E5; [|discriminate]. apply end_opts_inv in E5.
+  destruct (reason_ok rc); [|discriminate]. intros H. injection H as <-. subst.
+  unfold status_report_items. cbn [sr_received sr_forwarded sr_delivered sr_deleted sr_reason sr_src sr_time sr_seq sr_frag_off sr_pay_len].
+  rewrite (status_item_of_cbor_inv _ _ Ha), (status_item_of_cbor_inv _ _ Hb),
+          (status_item_of_cbor_inv _ _ Hc), (status_item_of_cbor_inv _ _ Hd). reflexivity.
+Qed.
+
+Theorem admin_record_reencode reason_ok bs a :
+  decode_admin_record_gen reason_ok bs = Some a -> encode_admin_record a = bs.
+Proof.
+  unfold decode_admin_record_gen, encode_admin_record.
+  destruct (decode_one_strict bs) as [c|] eqn:E; [|discriminate]. apply decode_one_strict_inv in E. subst bs.
+  intros H. f_equal. unfold admin_of_cbor in H.
+  destruct c as [| | | |l| | |]; try discriminate.
+  destruct l as [|x l]; [discriminate|]. destruct x as [t| | | | | | |]; try discriminate.
+  destruct l as [|body l]; [discriminate|]. destruct l; [|discriminate].
+  destruct (N.eqb_spec t 1) as [->|Hne].
+  - destruct body as [| | | |l| | |]; try discriminate.
+    destruct (status_report_of_items reason_ok l) as [r|] eqn:E2; [|discriminate].
+    injection H as <-. cbn [cbor_of_admin]. rewrite (status_report_of_items_inv _ _ _ E2). reflexivity.
+  - injection H as <-. reflexivity.
+Qed.
+
+(** * When the implementation guard holds *)
+
+Lemma cut_at_notin c s : ~ In c s -> cut_at c s = s.
+Proof.
+  induction s as [|x s IH]; intros H; cbn [cut_at]; [reflexivity|].
+  destruct (N.eqb_spec x c) as [->|_]; [exfalso; apply H; left; reflexivity|].
+  rewrite IH; [reflexivity|]. intros Hin. apply H. right. exact Hin.
+Qed.
+
+Lemma cut_at_app c a b : ~ In c a -> cut_at c (a ++ c :: b) = a.
+Proof.
+  induction a as [|x a IH]; intros H; cbn [app cut_at].
+  - rewrite N.eqb_refl. reflexivity.
+  - destruct (N.eqb_spec x c) as [->|_]; [exfalso; apply H; left; reflexivity|].
+    rewrite IH; [reflexivity|]. intros Hin. apply H. right. exact Hin.
+Qed.
+
+(** SSPs of the RFC 9171 dtn ABNF  "//" node-name "/" demux  without '#' and '?'
+    are left alone by the implementation's text conversion *)
+Theorem impl_norm_ssp_abnf node demux :
+  node <> [] -> ~ In 47 node ->
+  ~ In 35 (node ++ demux) -> ~ In 63 (node ++ demux) ->
+  impl_norm_ssp (47 :: 47 :: node ++ 47 :: demux) = 47 :: 47 :: node ++ 47 :: demux.
+Proof.
+  intros Hne Hslash H35 H63. unfold impl_norm_ssp.
+  assert (H35' : ~ In 35 (47 :: 47 :: node ++ 47 :: demux)).
+  { intros [E|[E|Hin]]; try discriminate. apply in_app_or in Hin as [Hin|[E|Hin]]; try discriminate;
+      apply H35, in_or_app; [left|right]; exact Hin. }
+  assert (H63' : ~ In 63 (47 :: 47 :: node ++ 47 :: demux)).
+  { intros [E|[E|Hin]]; try discriminate. apply in_app_or in Hin as [Hin|[E|Hin]]; try discriminate;
+      apply H63, in_or_app; [left|right]; exact Hin. }
+  rewrite (cut_at_notin 35) by exact H35'. rewrite (cut_at_notin 63) by exact H63'.
+  cbv zeta. rewrite cut_at_app by exact Hslash.
+  destruct node as [|x node]; [contradiction|].
+  rewrite skipn_app, skipn_all, Nat.sub_diag. cbn [app skipn]. reflexivity.
+Qed.
+
+Definition eid_stable (e : eid) : Prop := impl_norm_eid e = e.
+
+Lemma eid_stable_dtn ssp : impl_norm_ssp ssp = ssp -> ssp <> text_none -> eid_stable (EidDtn ssp).
+Proof. intros Hn Hne. unfold eid_stable, impl_norm_eid. rewrite Hn, bytes_eqb_neq by exact Hne. reflexivity. Qed.
+
+Lemma impl_norm_cblock_stable admin blk :
+  (forall a, decode_admin_record (btsd blk) = Some a -> impl_norm_admin a = a) ->
+  impl_norm_cblock admin blk = blk.
+Proof.
+  intros H. unfold impl_norm_cblock. destruct (admin && (btype blk =? 1)); [|reflexivity].
+  destruct (decode_admin_record (btsd blk)) as [a|] eqn:E; [|reflexivity].
+  rewrite (H a eq_refl). apply admin_record_reencode in E. rewrite E. destruct blk; reflexivity.
+Qed.
+
+(** the guard in terms of EIDs: the three primary-block EIDs and the subject
+    source of a carried status report are unchanged by the text conversion *)
+Theorem impl_norm_bundle_stable b :
+  eid_stable (dest (prim b)) -> eid_stable (src (prim b)) -> eid_stable (report_to (prim b)) ->
+  Forall (fun blk => forall r, decode_admin_record (btsd blk) = Some (AdminStatus r) -> eid_stable (sr_src r)) (blocks b) ->
+  impl_norm_bundle b = b.
+Proof.
+  intros Hd Hs Hr Hb. destruct b as [p bl]. unfold impl_norm_bundle. cbn [prim blocks] in *. f_equal.
+  - unfold impl_norm_primary. rewrite Hd, Hs, Hr. destruct p; reflexivity.
+  - induction Hb as [|blk bl Hblk _ IH]; cbn [map]; [reflexivity|]. rewrite IH. f_equal.
+    apply impl_norm_cblock_stable. intros [r|t c] Ha; [|reflexivity].
+    cbn [impl_norm_admin]. unfold impl_norm_status_report. rewrite (Hblk r Ha). destruct r; reflexivity.
+Qed.
+
+(** * Witnesses *)
+
+(** "//node/svc" , "//node/svc?x=1", "//a/b" *)
+Definition ssp_node_svc : bytes := [47;47;110;111;100;101;47;115;118;99].
+Definition ssp_node_svc_query : bytes := ssp_node_svc ++ [63;120;61;49].
+
+(** bytes(Bundle(primary=PrimaryBlock(bundle_flags=0x40001, crc_type=2, destination='dtn://node/svc',
+      source='ipn:1.2', report_to='dtn:none', create_ts=Timestamp(dtntime=1000, seqno=5), lifetime=3600000,
+      fragment_offset=5, total_app_data_len=100),
+      blocks=[CanonicalBlock(type_code=7, block_num=2, block_flags=1, crc_type=1, btsd=cbor2.dumps(300)),
+              CanonicalBlock(type_code=192, block_num=3, crc_type=0, btsd=b'\x01\x02'),
+              CanonicalBlock(type_code=1, block_num=1, crc_type=2, btsd=b'hello')]))   after update_all_crc() *)
+Definition real_bundle : bundle :=
+  mkBundle
+    (mkPrimary 7 262145 2 (EidDtn ssp_node_svc) (EidIpn [1; 2]) EidDtnNone 1000 5 3600000 (Some (5, 100))
+               (Some [102; 50; 191; 208]))
+    [mkCBlock 7 2 1 1 [25; 1; 44] (Some [85; 127]);
+     mkCBlock 192 3 0 0 [1; 2] None;
+     mkCBlock 1 1 0 2 [104; 101; 108; 108; 111] (Some [33; 193; 63; 47])].
+
+Definition real_bundle_octets : bytes :=
+  unhex 86 0x9f8b071a000400010282016a2f2f6e6f64652f7376638202820102820100821903e8051a0036ee80051864446632bfd086070201014319012c42557f8518c003000042010286010100024568656c6c6f4421c13f2fff.
+
+Example real_bundle_encoding : impl_encode_bundle real_bundle = real_bundle_octets.
+Proof. vm_compute. reflexivity. Qed.
+
+Example real_bundle_decoding : decode_bundle real_bundle_octets = Some real_bundle.
+Proof. vm_compute. reflexivity. Qed.
+
+Example real_bundle_crc : with_crc_bundle real_bundle = real_bundle /\ crc_ok_bundle real_bundle = true.
+Proof. split; vm_compute; reflexivity. Qed.
+
+Example real_bundle_wf : wf_bundle real_bundle /\ impl_norm_bundle real_bundle = real_bundle /\ impl_admin_ok real_bundle = true.
+Proof. split; [apply wf_bundleb_spec; vm_compute; reflexivity|]. split; vm_compute; reflexivity. Qed.
+
+Example real_bundle_canonical : rfc9171_canonical real_bundle_octets.
+Proof.
+  rewrite <- real_bundle_encoding. rewrite impl_encode_guard by (vm_compute; reflexivity).
+  destruct real_bundle_wf as ((Hp & Hb & _) & _). apply encode_bundle_canonical; assumption.
+Qed.
+
+(** a status report bundle:  bytes(Bundle(primary=PrimaryBlock(destination='dtn://x/', source='dtn://y/'),
+      blocks=[CanonicalBlock(block_num=1, crc_type=1)/AdminRecord()/StatusReport(status=StatusInfoArray(
+        received=StatusInfo(status=True, at=5), forwarded=StatusInfo(status=False),
+        delivered=StatusInfo(status=True, at=0), deleted=StatusInfo(status=False)), reason_code=6,
+        subj_source='dtn://a/b', subj_ts=Timestamp(dtntime=7, seqno=8), fragment_offset=3, payload_len=9)])) *)
+Definition real_report : status_report :=
+  mkStatusReport (true, Some 5) (false, None) (true, Some 0) (false, None) 6
+                 (EidDtn [47;47;97;47;98]) 7 8 (Some 3) (Some 9).
+Definition real_report_bundle : bundle :=
+  mkBundle (mkPrimary 7 2 0 (EidDtn [47;47;120;47]) (EidDtn [47;47;121;47]) EidDtnNone 0 0 0 None None)
+           [mkCBlock 1 1 0 1 (encode_status_report real_report) (Some [182; 32])].
+Definition real_report_octets : bytes :=
+  unhex 65 0x9f880702008201642f2f782f8201642f2f792f820100820000008601010001581c8201868482f50581f482f50081f4068201652f2f612f62820708030942b620ff.
+
+Example real_report_encoding : impl_encode_bundle real_report_bundle = real_report_octets.
+Proof. vm_compute. reflexivity. Qed.
+Example real_report_wf :
+  wf_status_report real_report /\ impl_reason_known (sr_reason real_report) = true /\
+  wf_bundle real_report_bundle /\ impl_norm_bundle real_report_bundle = real_report_bundle /\
+  impl_admin_ok real_report_bundle = true /\ crc_ok_bundle real_report_bundle = true.
+Proof.
+  split; [unfold wf_status_report; cbn; repeat split; try lia; try discriminate; repeat constructor; unfold wf_byte; lia|].
+  split; [reflexivity|]. split; [apply wf_bundleb_spec; vm_compute; reflexivity|].
+  repeat split; vm_compute; reflexivity.
+Qed.
+
+(** defect 1: a dtn EID whose demux contains '?' loses it when encoded *)
+Definition query_bundle : bundle :=
+  mkBundle (mkPrimary 7 0 0 (EidDtn ssp_node_svc_query) (EidIpn [1; 2]) EidDtnNone 10 1 1000 None None)
+           [mkCBlock 1 1 0 0 [104; 105] None].
+
+Lemma query_bundle_refutes :
+  wf_bundle query_bundle /\ impl_admin_ok query_bundle = true /\
+  decode_bundle (impl_encode_bundle query_bundle) <> Some query_bundle.
+Proof.
+  split; [apply wf_bundleb_spec; vm_compute; reflexivity|]. split; [vm_compute; reflexivity|].
+  vm_compute. intros H. discriminate H.
+Qed.
+
+Lemma query_bundle_reencode_refutes :
+  rfc9171_canonical (encode_bundle query_bundle) /\
+  decode_bundle (encode_bundle query_bundle) = Some query_bundle /\
+  impl_encode_bundle query_bundle <> encode_bundle query_bundle.
+Proof.
+  destruct query_bundle_refutes as ((Hp & Hb & _) & _ & _).
+  split; [apply encode_bundle_canonical; assumption|]. split; [vm_compute; reflexivity|].
+  vm_compute. intros H. discriminate H.
+Qed.
+
+(** defect 2: reason code 11 ("Block unsupported", RFC 9171 section 9.5) is not in the
+    implementation's enum: the report, and the whole bundle carrying it, cannot be decoded *)
+Definition reason11_report : status_report :=
+  mkStatusReport (true, None) (false, None) (false, None) (true, Some 7) 11 (EidIpn [1; 2]) 7 8 None None.
+Definition reason11_bundle : bundle :=
+  mkBundle (mkPrimary 7 2 0 (EidIpn [3; 4]) (EidIpn [1; 2]) EidDtnNone 10 1 1000 None None)
+           [mkCBlock 1 1 0 0 (encode_status_report reason11_report) None].
+
+Lemma reason11_report_wf : wf_status_report reason11_report.
+Proof. unfold wf_status_report; cbn; repeat split; try lia; try (right; reflexivity); try (left; reflexivity); repeat constructor; lia. Qed.
+
+Lemma reason11_refutes :
+  wf_status_report reason11_report /\
+  rfc_decode_status_report (encode_status_report reason11_report) = Some reason11_report /\
+  decode_status_report (encode_status_report reason11_report) = None /\
+  wf_bundle reason11_bundle /\ impl_norm_bundle reason11_bundle = reason11_bundle /\
+  rfc_admin_ok reason11_bundle = true /\
+  decode_bundle (impl_encode_bundle reason11_bundle) = None.
+Proof.
+  split; [exact reason11_report_wf|]. split; [vm_compute; reflexivity|]. split; [vm_compute; reflexivity|].
+  split; [apply wf_bundleb_spec; vm_compute; reflexivity|]. repeat split; vm_compute; reflexivity.
+Qed.
